@@ -110,7 +110,14 @@ def run(repo: Repo, rep: Report, tier: str) -> None:
     dl = repo.func("LayoutPlanner._determine_locked_wire_colors")
     cdl = canon(dl)
     lk = [n for n in walk_local(dl.node) if isinstance(n, ast.Assign) and isinstance(n.targets[0], ast.Subscript) and isinstance(n.value, ast.Constant) and cdl.text(n.targets[0].slice).endswith(".properties.get('feedback_signal'))")]
-    rep.check(bool(lk) and lk[0].value.value == col, "C04-R3", "the feedback signal is locked to the colour of the self-wire", f"lock {norm(lk[0].value) if lk else None}, wire {col}", dl.loc())
+    # the cell's own operand is looked up as the edge (cell, cell, signal), which is never planned: it reads the self-wire's colour if the cell's output is pinned to that
+    # colour, or if the lookup's last resort for an unplanned edge is that colour (locks keyed by a *feeding source* are a different matter: C04-R10)
+    own_lk = [n for n in lk if isinstance(n.targets[0].slice, ast.Tuple) and "entity_placements.items()" in cdl.text(n.targets[0].slice.elts[0])]
+    gwc3 = repo.func("ConnectionPlanner.get_wire_color_for_edge")
+    last3 = [n for n in gwc3.node.body if isinstance(n, ast.Return)]
+    dflt3 = last3[-1].value.value if last3 and isinstance(last3[-1].value, ast.Constant) else None
+    ok3 = (bool(own_lk) and all(n.value.value == col for n in own_lk)) or (not own_lk and dflt3 == col)
+    rep.check(ok3, "C04-R3", "the feedback signal is locked to the colour of the self-wire", f"lock {norm(own_lk[0].value) if own_lk else None}, lookup default {dflt3!r}, wire {col}", dl.loc())
     pc = repo.func("ConnectionPlanner.plan_connections")
     cpc = canon(pc)
     order = [call_name(c) for c in calls_in(pc.node) if call_name(c) in ("_add_self_feedback_connections", "clear")]
@@ -242,11 +249,29 @@ def run(repo: Repo, rep: Report, tier: str) -> None:
             gs = _cg10(dl, st)
             if any(pol and "'has_self_feedback'" in g for g, pol in gs):
                 stores10.append((st, gs))
-    own = [(st, gs) for st, gs in stores10 if st.value.value == "red"]
-    other = [(st, gs) for st, gs in stores10 if st.value.value == "green" and norm(st.targets[0].slice.elts[0]) != norm(own[0][0].targets[0].slice.elts[0]) if own
-             and norm(st.targets[0].slice.elts[1]) == norm(own[0][0].targets[0].slice.elts[1])]
+    # the loop wire itself is laid red by the connection planner; whether the cell's *output to its readers* is pinned to red as well is not required (two folded
+    # cells on one signal that meet in a reader need different colours there)
+    other = [(st, gs) for st, gs in stores10 if st.value.value == "green" and any(isinstance(x, ast.For) for x in _anc10(dl.node, st))]
     apart = [1 for st, gs in other if any((not pol) and " == " in g for g, pol in gs)]
-    rep.check(bool(own), "C04-R10", "_determine_locked_wire_colors: a folded cell's own output is locked to red", "locked under has_self_feedback" if own else "no lock for has_self_feedback placements", dl.loc())
+    own = stores10
     rep.check(bool(other) and bool(apart), "C04-R10", "_determine_locked_wire_colors: other sources of the cell's signal into a folded cell are locked to green",
               "lock keyed by the feeding source, for sources other than the cell" if other and apart else
               "only the cell's own output is locked: an input on the cell's signal shares the red loop wire", dl.loc(own[0][0]) if own else dl.loc())
+
+    # ---------------- R11 --------------------------------------------------------------
+    rep.rule("C04-R11", "two folded cells on one signal that are read together stay two loops: each cell's loop wire joins its output to its own input, so a reader that takes both "
+             "outputs on one colour joins the two loops and each cell adds the other's value every tick — the colour of a folded cell's output towards its readers must be "
+             "left to the conflict colouring (no lock keyed by the cell itself)")
+    rep.check(not own_lk, "C04-R11", "_determine_locked_wire_colors does not pin a folded cell's output to one colour", "no lock keyed by the cell" if not own_lk else
+              f"`{norm(own_lk[0])[:80]}`: `c.write(c.read() + 1); d.write(d.read() + 2);` on one signal with a reader `c.read() + d.read()` puts both outputs on red and the loops merge", dl.loc(own_lk[0]) if own_lk else dl.loc())
+
+
+def _anc10(root: ast.AST, node: ast.AST) -> list[ast.AST]:
+    from ..core import parents_map
+    pm = parents_map(root)
+    out = []
+    cur = node
+    while cur in pm:
+        cur = pm[cur]
+        out.append(cur)
+    return out
